@@ -100,6 +100,12 @@ def finish(res, src, out, meta, wt):
          "files_changed": meta.get("files_changed"), "demo_file": meta["demo_file"], "demo_dest": meta["demo_dest"], "demo_cmd": meta["demo_cmd"],
          "origin": "independent sub-agent given only the property text and a scratch worktree", "confirmed_by_me": res["ran"], "accepted": res["ok"],
          "reject_reason": res.get("reject"), "checks": res.get("checks")}
+    try:  # keep the hand-written history note of an earlier confirmation
+        old = json.load(open(os.path.join(out, "meta.json")))
+        if old.get("history"):
+            m["history"] = old["history"]
+    except (OSError, ValueError):
+        pass
     json.dump(m, open(os.path.join(out, "meta.json"), "w"), indent=1)
     status = "REJECTED: " + res.get("reject", "") if not res["ok"] else " ".join(f"{p}:{'CAUGHT' if c['caught'] else 'MISSED(exit %d)' % c['exit']}" for p, c in res["checks"].items())
     print(f"{res['name']}: {status}")
